@@ -4,6 +4,7 @@ pub mod driver;
 pub mod odsw;
 pub mod report;
 pub mod rng;
+pub mod wb;
 pub mod xlsbw;
 pub mod xlsw;
 pub mod xlsxw;
